@@ -257,6 +257,24 @@ pub fn hostile_values(r: &mut Rng, thorough: bool) -> Vec<Y> {
         Y::Raw("*nosuchanchor".into()),
         Y::Raw("&a [*a]".into()),
         Y::Raw("!!binary aGVsbG8=".into()),
+        // domain names with labels longer than 63 octets whose 63rd/64th octet falls inside a multi-byte character, with empty
+        // labels, a trailing dot, 255+ octets in all
+        s(&"ö".repeat(40)),
+        s(&format!("{}.example", "ö".repeat(33))),
+        s(&format!("a{}.example", "ö".repeat(33))),
+        s(&format!("{}.example", "€".repeat(22))),
+        s(&format!("ab{}.example", "€".repeat(21))),
+        s(&format!("{}.example", "😀".repeat(16))),
+        s(&format!("abc{}.example", "😀".repeat(16))),
+        l(vec![s(&format!("{}.example", "ö".repeat(40))), s(&format!("x{}.example", "ö".repeat(40)))]),
+        s(&"a".repeat(64)),
+        s(&format!("{}.example", "a".repeat(63))),
+        s(&format!("{}.example", "a".repeat(200))),
+        s(&vec!["abcdefgh"; 40].join(".")),
+        s("a..b"),
+        s(".example"),
+        s("example."),
+        s("."),
         // prefixes
         s("192.0.2.0"),
         s("192.0.2.0/"),
